@@ -105,7 +105,7 @@ def _perm(model, n):
 def run(ctx):
     obs = ctx.obs
     obs.extra['meta'] = META
-    n_mesh = ctx.n(96, 320)
+    n_mesh = ctx.n(96, 480)
     for case, rng in ctx.cases(n_mesh):
         spec = {'case': case}
         ctx.run_case(spec, one_mesh, obs, rng, case, spec, ctx)
